@@ -220,9 +220,11 @@ CLAIMED = {
           "byte-identical, fs/ts/shape/noise estimates/metadata/rng state/t_start unchanged (also after a raising call), "
           "caller-supplied arrays not modified, bounded == unbounded restricted (twin frame), final data == prior + sum of "
           "returned signals, same data in reverse order, and a repeated injection of the same description (with a "
-          "callable that hands out a persistent array) returns the same signal."),
+          "callable that hands out a persistent array) returns the same signal. Leg T: every injection call of free-form "
+          "recorded frame lives and of the repository's own tests is validated against FrameTrace.tla (returned array is "
+          "the delta, axes / metadata / estimates untouched, a raising injection adds nothing)."),
     note=("Trusted: as C01. Superposition compared at 1e-9 (float64) / 2e-7 (float32) relative."),
-    technique="TLA+ model (TLC exhaustive) + spec-generated behaviours replayed on the implementation",
+    technique="TLA+ model (TLC exhaustive) + spec-generated behaviours replayed on the implementation + trace validation of recorded executions",
     design_ref="DESIGN.md 4.2, 5 (C06)", engine="injection"),
  "C13": dict(
     text=("ConstSignal.tla decides, over integers (1/24 channel), the number of smearing sub-steps max(1, ceil(|drift|/unit)), "
@@ -280,10 +282,11 @@ CLAIMED = {
           "frames keep orientation / resolutions / start time / source name and hold their own data (Mutate never "
           "changes another object). Replaced time axes (shifted, or gapped as Cadence.consolidate makes them) are part of "
           "the state: de-drifting and integration go by row index, the TimeSeries carries the parent's axis; every "
-          "sequence over a small alphabet around them is enumerated exhaustively (Focus = derive)."),
+          "sequence over a small alphabet around them is enumerated exhaustively (Focus = derive). Leg T: every recorded "
+          "slice / de-drift / integrate call (drivers and the repository's tests) is validated against FrameTrace.tla."),
     note=("Trusted: as C03. Drift rates are multiples of a quarter channel per row on exactly representable geometries "
           "plus BL hi-res; |q| <= 9/4 channels per row."),
-    technique="TLA+ model (TLC exhaustive) + spec-generated behaviours replayed on the implementation",
+    technique="TLA+ model (TLC exhaustive) + spec-generated behaviours replayed on the implementation + trace validation of recorded executions",
     design_ref="DESIGN.md 4.4, 5 (C17)", engine="framelife"),
  "C19": dict(
     text=("Split.tla models split_waterfall_generator as a loop over an integer window index and split_array as its two "
@@ -312,12 +315,14 @@ CLAIMED = {
           "deviations equal TLC's variances after every call; user-defined sources and update_noise() on streams and "
           "backgrounds are actions of the model (UpdateKeepsRealised, AddNoiseAddsInQuadrature), the re-estimated "
           "deviation is judged statistically and later add_noise calls must add to it in quadrature. Frames are driven at "
-          "intensity scales 1, 4e6, 1e-3 and 1e-10."),
+          "intensity scales 1, 4e6, 1e-3 and 1e-10. Leg T: free-form recorded frame lives (harness/record_frame.py) and the "
+          "repository's own non-voltage tests are validated against FrameTrace.tla, which decides from the tracked "
+          "estimate of each frame which recorder-projected predicate every call owed."),
     note=("Distribution clauses are OUTSIDE what TLC evaluates: sample mean and variance of every added noise array and of the "
           "realised voltages are tested at 6.5 standard errors (from the sample's fourth moment) against the mean / "
           "variance the spec names; false-alarm probability < 1e-6 per run. Trusted: numpy/scipy normal cdf, astropy "
           "sigma_clip for the re-estimate."),
-    technique="TLA+ model (TLC exhaustive) + spec-generated behaviours replayed on the implementation; moments as z-score projections",
+    technique="TLA+ model (TLC exhaustive) + spec-generated behaviours replayed on the implementation + trace validation of recorded executions; moments as z-score projections",
     design_ref="DESIGN.md 4.3, 5 (C11), 9", engine="noise"),
  "C12": dict(
     text=("A two-run property decided with behaviours generated by the existing specifications. Backend.tla's "
